@@ -4,6 +4,7 @@ def b_State_write_goal_position : CR.SrcW.Builder where
   kind := .fill
   tag := ""
   xsd := "positionInterval"
+  path := []
   parent := ""
   attrs := []
   gattrs := []
@@ -27,10 +28,11 @@ def b_State_write_goal_position_lanelet_n2 : CR.SrcW.Builder where
   key := "StateXMLNode._write_goal_position/lanelet#2"
   kind := .node
   tag := "lanelet"
-  xsd := ""
+  xsd := "positionInterval"
+  path := ["lanelet"]
   parent := "StateXMLNode._write_goal_position"
-  attrs := []
-  gattrs := [("ref", (.str "position"))]
+  attrs := [("ref", (.str "position"))]
+  gattrs := []
   text := none
   atoms := []
   body :=
@@ -40,10 +42,11 @@ def b_State_write_goal_position_lanelet : CR.SrcW.Builder where
   key := "StateXMLNode._write_goal_position/lanelet"
   kind := .node
   tag := "lanelet"
-  xsd := ""
+  xsd := "positionInterval"
+  path := ["lanelet"]
   parent := "StateXMLNode._write_goal_position"
-  attrs := []
-  gattrs := [("ref", (.str "it1"))]
+  attrs := [("ref", (.str "it1"))]
+  gattrs := []
   text := none
   atoms := []
   body :=
